@@ -285,7 +285,7 @@ ROUND9 = {
 
 NOT_APPLICABLE = {
     "C03": "equality of rendered output with a reference semantics over all programs x contexts quantifies over runtime values; its structural part (frame/capture/escape pairing, jump nesting) is decided under C05, nothing else is visible in the shape of the code, and a reference interpreter would be a different technique",
-    "C09": "Python slice semantics over (kind, len, start, stop, step) is integer arithmetic on runtime values: no sound static argument in reach bounds it; the panics the slicing code hid (empty / inverted / extreme bounds) were found by the C01 taint rule and repaired, but the selected elements are value-level and not claimed",
+    "C09": "Python slice semantics over (kind, len, start, stop, step) is integer arithmetic on runtime values: no sound static argument in reach bounds it; the panics the slicing code hid (empty / inverted / extreme bounds) were found by the C01 taint rule and repaired, but the selected elements are value-level and not claimed.  Its shape clauses (zero step is the only slicing error, the result kind follows the operand kind) are visible in ops::slice but every realistic regression sits in the offset arithmetic of get_offset_and_len / range_step_backwards, which no rule here decides: claiming the property through those clauses would be a claim in name only (DESIGN.md section 4)",
     "C10": "byte-exact text reproduction and whitespace control under every delimiter configuration is string arithmetic over runtime text (lexer offsets); no clause of it is visible in the shape of the code beyond what C14 checks for span provenance, and a brittle text proxy would raise false alarms",
 }
 
